@@ -17,7 +17,6 @@ from __future__ import annotations
 """Service-related policy factories."""
 
 # pylint:disable=g-import-not-at-top
-import functools
 import time
 
 from vizier import pythia
@@ -75,9 +74,15 @@ class DefaultPolicyFactory(pythia.PolicyFactory):
       from vizier._src.algorithms.designers import grid
 
       shuffle_seed = int(time.time())
-      grid_factory = functools.partial(
-          grid.GridSearchDesigner.from_problem, shuffle_seed=shuffle_seed
-      )
+
+      def grid_factory(problem, seed=None):
+        # The policy passes its own (unset) seed; the shuffle seed chosen here
+        # applies unless one is given. A restored designer takes the seed
+        # stored in its dump.
+        return grid.GridSearchDesigner.from_problem(
+            problem, seed=shuffle_seed if seed is None else seed
+        )
+
       return dp.PartiallySerializableDesignerPolicy(
           problem_statement,
           policy_supporter,
